@@ -11,6 +11,7 @@ import z3
 
 from . import sym
 from .calls import CallMixin
+from .comp import CompMixin
 from .core import Ctx, Explorer, Obligation, PathEnd, PyBreak, PyContinue, PyRaise, PyReturn
 from .interp import Interp
 from .model import Env, Heap, PyObj
@@ -18,7 +19,7 @@ from .stmts import StmtMixin
 from .sym import NONE, TInt, TNone, TOpt, TRef, Unsupported, V
 
 
-class Machine(Interp, StmtMixin, CallMixin):
+class Machine(Interp, StmtMixin, CallMixin, CompMixin):
     pass
 
 
